@@ -207,9 +207,14 @@ class SparseLinearModel(LinearModel):
         if y is not None and self.dynamic:
             warnings.warn("Dynamic mode is incompatible with a precomputed metric. Ignoring dynamic mode.")
 
-        best_weights, geminis, group_lasso_penalties, alphas, n_features = _path(self, X, y, alpha_multiplier,
-                                                                                 min_features, keep_threshold,
-                                                                                 early_stopping_factor, max_patience)
+        # The path drives alpha: whatever happens, give the hyperparameter back as it was set by the user
+        initial_alpha = self.alpha
+        try:
+            best_weights, geminis, group_lasso_penalties, alphas, n_features = _path(self, X, y, alpha_multiplier,
+                                                                                     min_features, keep_threshold,
+                                                                                     early_stopping_factor, max_patience)
+        finally:
+            self.alpha = initial_alpha
 
         if restore_best_weights:
             if not self.dynamic:
